@@ -59,9 +59,9 @@ def run(chk):
         chk.hist("address mask family")
     ma = run_model(drv, afam); da = run_daemons(impl, afam)
     analyse(chk, drv, impl, afam, ma, da, project=classes, judge=judge, what="class rules (address masks): ", nontrivial=nontriv)
-    # oracle from the property text on one fixed history (D30): rule 10-viad needs an OK from d.svc, which never answered (it was never
-    # even asked) - client 5 must get the class of the next rule
-    sh = slot_reuse_history(); dh = run_daemons(impl, [sh])[0]
+    # oracle from the property text on one fixed history (D30, repaired): rule 10-viad needs an OK from d.svc, which never answered
+    # (it was never even asked) - client 5 must get the class of the next rule
+    sh = slot_reuse_history(expire=True); dh = run_daemons(impl, [sh])[0]      # d.svc is asked and stays silent; the client is accepted by its timeout
     chk.cov["evaluations"] += 1; chk.hist("slot reuse after two reloads")
     got = [l for st in dh.steps for l in st[0] if l.startswith(("D 5 ", "R 5 "))]
     if dh.rc != 0 or not got or got[0].split(" ")[-1] != "rest":
